@@ -3,7 +3,7 @@
   python3-vt -m pyvc.run [--tier quick|thorough] [--only <qualname-substring>] [--json out.json] [--jobs N]
 """
 from __future__ import annotations
-import argparse, json, sys, time, os, traceback, multiprocessing as mp
+import os, argparse, json, sys, time, os, traceback, multiprocessing as mp
 
 from . import extract, solve
 from .vtypes import OutOfSubset
@@ -19,8 +19,9 @@ def build_registry():
     return reg
 
 
-def verify_function(qualname, timeout_ms=10000, want_smt2=False):
-    """Runs in a worker process. Returns a JSON-able dict."""
+def verify_function(qualname, timeout_ms=10000, want_smt2=False, shard=None):
+    """Runs in a worker process. Returns a JSON-able dict.  shard = (i, k): generate all obligations of the function but discharge only
+    those whose index is i modulo k (functions with many obligations are spread over several processes; the shards are merged)."""
     t0 = time.time()
     out = {"function": qualname, "status": "ok", "obligations": []}
     try:
@@ -50,8 +51,12 @@ def verify_function(qualname, timeout_ms=10000, want_smt2=False):
         out["lemmas_used"] = sorted(eng.used_lemmas)
         out["notes"] = list(eng.notes)
         axioms = reg.axioms_for(c) if hasattr(reg, "axioms_for") else []
-        for o in obls:
+        out["generated"] = len(obls)
+        for idx, o in enumerate(obls):
+            if shard is not None and idx % shard[1] != shard[0]:
+                continue
             r = solve.check(o, axioms=axioms, timeout_ms=timeout_ms, want_smt2=want_smt2)
+            r["index"] = idx
             out["obligations"].append(r)
     except OutOfSubset as ex:
         out["status"] = "out_of_subset"
@@ -85,14 +90,21 @@ def run(qualnames, jobs=16, timeout_ms=10000, want_smt2=False, function_deadline
     not always honour its timeout) is killed and the function is reported undecided."""
     if function_deadline_s is None:
         function_deadline_s = max(300, 60 * timeout_ms / 1000)
-    pending = list(qualnames)
+    shards = _shard_plan(qualnames, jobs)
+    pending = []
+    for q in qualnames:
+        k = shards.get(q, 1)
+        pending += [(q, (i, k)) for i in range(k)] if k > 1 else [(q, None)]
+    # big functions first: they determine the wall-clock time
+    pending.sort(key=lambda t: -shards.get(t[0], 1))
     running = {}
     results = {}
     while pending or running:
         while pending and len(running) < jobs:
-            q = pending.pop(0)
+            q0, sh = pending.pop(0)
+            q = (q0, sh)
             parent, child = mp.Pipe(duplex=False)
-            p = mp.Process(target=_proc_main, args=(child, (q, timeout_ms, want_smt2)), daemon=True)
+            p = mp.Process(target=_proc_main, args=(child, (q0, timeout_ms, want_smt2, sh)), daemon=True)
             p.start()
             child.close()
             running[q] = (p, parent, time.time())
@@ -101,18 +113,59 @@ def run(qualnames, jobs=16, timeout_ms=10000, want_smt2=False, function_deadline
                 try:
                     results[q] = conn.recv()
                 except EOFError:
-                    results[q] = {"function": q, "status": "crash", "reason": "worker died", "obligations": [], "seconds": time.time() - t0}
+                    results[q] = {"function": q[0], "status": "crash", "reason": "worker died", "obligations": [], "seconds": time.time() - t0}
                 p.join(5)
                 del running[q]
             elif not p.is_alive():
-                results[q] = {"function": q, "status": "crash", "reason": "worker exited without a result", "obligations": [], "seconds": time.time() - t0}
+                results[q] = {"function": q[0], "status": "crash", "reason": "worker exited without a result", "obligations": [], "seconds": time.time() - t0}
                 del running[q]
             elif time.time() - t0 > function_deadline_s:
                 p.kill()
-                results[q] = {"function": q, "status": "out_of_subset", "obligations": [], "seconds": function_deadline_s,
+                results[q] = {"function": q[0], "status": "out_of_subset", "obligations": [], "seconds": function_deadline_s,
                               "reason": f"verification of this function exceeded the {function_deadline_s}s deadline (solver did not return)"}
                 del running[q]
-    return [results[q] for q in qualnames]
+    return [_merge_shards(q, [results[k] for k in results if k[0] == q]) for q in qualnames]
+
+
+def _shard_plan(qualnames, jobs):
+    """number of processes per function, from the obligation counts recorded for the unchanged tree (contracts/expected_obligations.json)"""
+    import json
+    path = os.path.join(os.path.dirname(os.path.dirname(os.path.abspath(__file__))), "contracts", "expected_obligations.json")
+    counts = {}
+    try:
+        for _, per in json.load(open(path)).items():
+            for f, n in per.items():
+                counts[f] = max(counts.get(f, 0), n)
+    except Exception:
+        pass
+    plan = {}
+    for q in qualnames:
+        n = counts.get(q, 0)
+        if n > 350 and jobs >= 4:
+            plan[q] = min(6, 1 + n // 350)
+    return plan
+
+
+def _merge_shards(q, parts):
+    if len(parts) == 1:
+        return parts[0]
+    bad = [p for p in parts if p["status"] != "ok"]
+    out = dict(bad[0] if bad else parts[0])
+    obls = []
+    for p in parts:
+        obls += p.get("obligations", [])
+    out["obligations"] = sorted(obls, key=lambda o: o.get("index", 0))
+    out["seconds"] = round(max(p.get("seconds", 0) for p in parts), 3)
+    out["cpu_seconds"] = round(sum(p.get("seconds", 0) for p in parts), 3)
+    out["shards"] = len(parts)
+    for k in ("lemmas_used", "notes"):
+        vals = []
+        for p in parts:
+            for x in p.get(k, []):
+                if x not in vals:
+                    vals.append(x)
+        out[k] = vals
+    return out
 
 
 def main():
